@@ -4,6 +4,7 @@ import OV.Drivers.Loop
     `C15 path <api> <proto|ir>`  → `ret=<arg|fresh|none|aux>;arg:<carrier>=<expr>,…;res:<carrier>=<expr>,…`
        where `<expr>` is the symbolic composition (`M`, `de(M)`, `ser(T(de(M)))`, `empty`, …) held by that
        carrier of the caller's object after the call (`arg`) and of the produced model (`res`).
+    `C15 route <api> <proto|ir>` → `<callee parameter><-<caller option>,…` (the option routing of that entry)
     `C15 touches <api>`          → comma-separated carriers of the API's frame
     `C15 inline <0|1>`           → `ret=…;changed=<0|1>` (1 = model-local functions present)
     api ∈ optimize fold_constants remove_unused_nodes remove_unused_functions rewrite_empty rewrite_rules
@@ -30,18 +31,23 @@ def showOutcome (o : Outcome (Rec String)) : String :=
 
 def handle (args : List String) : String :=
   match args with
-  | ["path", "convert_version_old", "proto"] => showOutcome (protoConvertOld symSerde symT symArg)
+  | ["path", "convert_version_old", "proto"] => showOutcome (protoConvertOld symSerde symT symOpts symArg)
   | ["path", api, entry] =>
     match parseApi api, entry with
-    | some f, "proto" => showOutcome (protoPath symSerde symT f symArg)
-    | some f, "ir" => showOutcome (irPath symT f symArg)
+    | some f, "proto" => showOutcome (protoPath symSerde symT f symOpts symArg)
+    | some f, "ir" => showOutcome (irPath symT f symOpts symArg)
+    | _, _ => "bad-op"
+  | ["route", api, entry] =>
+    match parseApi api, entry with
+    | some f, "proto" => ",".intercalate (OptKey.all.map (fun k => k.name ++ "<-" ++ forward f .proto symOpts k))
+    | some f, "ir" => ",".intercalate (OptKey.all.map (fun k => k.name ++ "<-" ++ forward f .ir symOpts k))
     | _, _ => "bad-op"
   | ["touches", api] =>
     match parseApi api with
     | some f => ",".intercalate ((Carrier.all.filter (touches f)).map Carrier.name)
     | none => "bad-op"
   | ["inline", b] =>
-    let o := inlinePath (fun _ => b == "1") (symT .optimize) symArg
+    let o := inlinePath (fun _ => b == "1") (symT .optimize symOpts) symArg
     "ret=" ++ showRet o.ret ++ ";changed=" ++ (if o.argAfter Carrier.nodes == "M" then "0" else "1")
   | _ => "bad-op"
 
